@@ -193,15 +193,8 @@ func realStmt(st ast.Statement) string {
 		if s == nil {
 			return "_"
 		}
-		all := ""
-		if s.All {
-			all = " ALL"
-		}
-		prefix := ""
-		if l, ok := s.Left.(*ast.SelectStatement); ok && l != nil && l.With != nil {
-			prefix = realWith(l.With)
-		}
-		return prefix + "{" + realStmtNoWith(s.Left) + " " + strings.ToUpper(s.Operator) + all + " " + realStmt(s.Right) + "}"
+		// a WITH clause in front of a chain of set operations is attached to the leftmost SELECT of the chain
+		return realWith(leftmostWith(s)) + realSetNoWith(s)
 	case *ast.SelectStatement:
 		if s == nil {
 			return "_"
@@ -209,6 +202,34 @@ func realStmt(st ast.Statement) string {
 		return realWith(s.With) + realStmtNoWith(s)
 	}
 	return fmt.Sprintf("?%T", st)
+}
+
+func leftmostWith(st ast.Statement) *ast.WithClause {
+	switch s := st.(type) {
+	case *ast.SetOperation:
+		if s != nil {
+			return leftmostWith(s.Left)
+		}
+	case *ast.SelectStatement:
+		if s != nil {
+			return s.With
+		}
+	}
+	return nil
+}
+
+func realSetNoWith(s *ast.SetOperation) string {
+	all := ""
+	if s.All {
+		all = " ALL"
+	}
+	left := ""
+	if l, ok := s.Left.(*ast.SetOperation); ok && l != nil {
+		left = realSetNoWith(l)
+	} else {
+		left = realStmtNoWith(s.Left)
+	}
+	return "{" + left + " " + strings.ToUpper(s.Operator) + all + " " + realStmt(s.Right) + "}"
 }
 
 func realWith(w *ast.WithClause) string {
@@ -448,6 +469,137 @@ func runC03(c *runCtx) {
 					arm := &GSelect{SetOp: "UNION", SetLeft: mk("t"), SetRight: inner, Limit: -1, Offset: -1}
 					arm.SetLeft.OrderBy, arm.SetLeft.Limit, arm.SetLeft.Offset = nil, -1, -1
 					check(arm, g.renderSelect(arm), "clause-combination:set-operation")
+				}
+			}
+		}
+	}
+	// chains of set operations, with and without a WITH clause in front: UNION and EXCEPT associate to the left,
+	// INTERSECT binds tighter (standard precedence); every written arm, operator, ALL flag and CTE appears
+	{
+		setOps := []string{"UNION", "EXCEPT", "INTERSECT"}
+		arm := func(t string) *GSelect {
+			return &GSelect{Cols: []GCol{{E: &GExpr{K: "ident", Name: "a"}}}, From: []GFrom{{Table: t}}, Limit: -1, Offset: -1}
+		}
+		for _, op1 := range setOps {
+			for _, op2 := range setOps {
+				for _, all1 := range []bool{false, true} {
+					for _, withCTE := range []bool{false, true} {
+						for _, arms := range []int{3, 4} {
+							g.reset()
+							g.Plain = true
+							a, b, c3 := arm("t1"), arm("t2"), arm("t3")
+							var top *GSelect
+							if op2 == "INTERSECT" && op1 != "INTERSECT" {
+								top = &GSelect{SetOp: op1, SetAll: all1 && op1 == "UNION", SetLeft: a, SetRight: &GSelect{SetOp: op2, SetLeft: b, SetRight: c3, Limit: -1, Offset: -1}, Limit: -1, Offset: -1}
+							} else {
+								top = &GSelect{SetOp: op2, SetLeft: &GSelect{SetOp: op1, SetAll: all1 && op1 == "UNION", SetLeft: a, SetRight: b, Limit: -1, Offset: -1}, SetRight: c3, Limit: -1, Offset: -1}
+							}
+							sql := "SELECT a FROM t1 " + op1
+							if all1 && op1 == "UNION" {
+								sql += " ALL"
+							}
+							sql += " SELECT a FROM t2 " + op2 + " SELECT a FROM t3"
+							if arms == 4 {
+								// one more arm with the first operator again: left-associated on top (or below an INTERSECT group)
+								d4 := arm("t4")
+								if op1 == "INTERSECT" && op2 != "INTERSECT" {
+									// t1 I t2 op2 t3 I t4  =  (t1 I t2) op2 (t3 I t4)
+									top.SetRight = &GSelect{SetOp: "INTERSECT", SetLeft: c3, SetRight: d4, Limit: -1, Offset: -1}
+								} else if op2 == "INTERSECT" && op1 != "INTERSECT" {
+									// t1 op1 t2 I t3 op1 t4 = (t1 op1 (t2 I t3)) op1 t4
+									top = &GSelect{SetOp: op1, SetLeft: top, SetRight: d4, Limit: -1, Offset: -1}
+								} else {
+									top = &GSelect{SetOp: op1, SetLeft: top, SetRight: d4, Limit: -1, Offset: -1}
+								}
+								sql += " " + op1 + " SELECT a FROM t4"
+							}
+							if withCTE {
+								top.CTEs = []GCTE{{Name: "c", Body: arm("u")}}
+								sql = "WITH c AS (SELECT a FROM u) " + sql
+							}
+							class := "set-operation-chain"
+							// left-to-right reading differs from the standard one exactly when an INTERSECT follows another operator
+							if (op2 == "INTERSECT" && op1 != "INTERSECT") || (arms == 4 && op1 == "INTERSECT" && op2 != "INTERSECT") {
+								class = "set-operation-precedence"
+							}
+							check(top, sql, class)
+						}
+					}
+				}
+			}
+		}
+	}
+	// column constraints compose: a column definition with constraints c1 c2 [c3] carries exactly the constraints that
+	// each of them yields when written alone, in the written order (CREATE TABLE and ALTER TABLE ... ADD COLUMN)
+	{
+		cons := []string{"NOT NULL", "NULL", "UNIQUE", "PRIMARY KEY", "DEFAULT 0", "DEFAULT 'x'", "DEFAULT (1 + 2)", "DEFAULT now()", "DEFAULT TRUE", "DEFAULT NULL",
+			"DEFAULT a", "CHECK (a > 0)", "REFERENCES u (id)", "REFERENCES u (id) ON DELETE CASCADE", "AUTO_INCREMENT"}
+		frames := []struct{ name, pre, post string }{{"create-table", "CREATE TABLE t (a INT ", ")"}, {"create-table-second-column", "CREATE TABLE t (z TEXT, a INT ", ", y INT)"}, {"alter-add-column", "ALTER TABLE t ADD COLUMN a INT ", ""}}
+		dumpCons := func(sql string) ([]string, bool) {
+			tree, err := gosqlx.Parse(sql)
+			if err != nil {
+				return nil, false
+			}
+			defer ast.ReleaseAST(tree)
+			var out []string
+			for _, r := range reachableNodes(tree) {
+				if r.typ == "ColumnDef" && r.val.IsValid() {
+					v := r.val
+					for v.Kind() == reflect.Pointer || v.Kind() == reflect.Interface {
+						v = v.Elem()
+					}
+					if v.Kind() == reflect.Struct && v.FieldByName("Name").IsValid() && v.FieldByName("Name").String() == "a" {
+						cs := v.FieldByName("Constraints")
+						for i := 0; i < cs.Len(); i++ {
+							out = append(out, compactDump(cs.Index(i)))
+						}
+					}
+				}
+			}
+			return out, true
+		}
+		for _, fr := range frames {
+			single := map[string][]string{}
+			for _, c1 := range cons {
+				if d, ok := dumpCons(fr.pre + c1 + fr.post); ok && len(d) == 1 {
+					single[c1] = d
+				} else {
+					res.stat("constraint-alone-not-one:" + fr.name)
+				}
+			}
+			var seqs [][]string
+			for _, c1 := range cons {
+				for _, c2 := range cons {
+					seqs = append(seqs, []string{c1, c2})
+				}
+			}
+			for i := 0; i < c.n(150, 3000); i++ {
+				seqs = append(seqs, []string{g.r.Pick(cons), g.r.Pick(cons), g.r.Pick(cons)})
+			}
+			for _, sq := range seqs {
+				var want []string
+				okAll := true
+				for _, x := range sq {
+					d, ok := single[x]
+					if !ok {
+						okAll = false
+						break
+					}
+					want = append(want, d...)
+				}
+				if !okAll {
+					continue
+				}
+				sql := fr.pre + strings.Join(sq, " ") + fr.post
+				got, ok := dumpCons(sql)
+				res.count("constraints|"+sql, true)
+				if !ok {
+					res.stat("constraint-sequence-rejected:" + fr.name)
+					continue
+				}
+				if strings.Join(got, " ; ") != strings.Join(want, " ; ") {
+					res.fail("tree-differs:column-constraints:"+fr.name, "a column definition does not carry exactly the constraints written, each as it is read when written alone",
+						map[string]any{"sql": sql}, map[string]any{"got": got, "want": want})
 				}
 			}
 		}
